@@ -604,7 +604,7 @@ func c13GenReq(t *rapid.T) c13Case {
 	if store != "rs" && !strings.HasSuffix(store, "-reader") {
 		// what the Go-data stores can hold (as in C03 / C18)
 		o.Unions, o.ConfigFalse, o.CompoundKeys = false, false, true
-		o.Types = []string{"int8", "int32", "int64", "uint16", "uint64", "decimal64", "string", "boolean"}
+		o.Types = []string{"int8", "int32", "int64", "uint16", "uint64", "decimal64", "string", "boolean", "enumeration"}
 		o.KeyTypes = []string{"string", "int32", "string", "int32", "int8", "int64", "uint16", "uint64", "boolean"}
 	}
 	m := dm.GenModule(t, o)
